@@ -11,6 +11,7 @@ import OVM.Tet.TetConstruct
 import OVM.Tet.TetChecked
 import OVM.Tet.TetCellV
 import OVM.Tet.CollapseGInv
+import OVM.Tet.TetFinal
 /-
   C15 — tetrahedral kernel: shape invariants, vertex-order contracts, label tables, edge collapse.
 
@@ -30,6 +31,9 @@ import OVM.Tet.CollapseGInv
       Gap (explicit hypothesis in `TetOpOK`) only for the protected `split_edge` / `split_face` (not part of C15's
       statement; discharged on concrete instances in OVM/Tet/ShapeRun.lean).  In deferred or fast mode no hypothesis
       at all is needed (`shape_deletions_deferred_or_fast`).
+      FIRST SENTENCE OF C15 AT FULL STRENGTH: `tetShape_run` — `TetShape` (every live cell a tetrahedron on four distinct
+      vertices) along every admissible history of the whole vocabulary, every deletion mode (OVM/Tet/TetStable.lean:
+      `stable_tetQ`, an instance of H1's `HexAll.Stable`; OVM/Tet/TetFinal.lean).
       Four distinct vertices: a cell that satisfies `IsTet` has exactly four vertices (`tetShape_of_isTet`).  WHICH
       construction paths give `IsTet`: `add_cell(v0,v1,v2,v3)` on four different live vertices in a mesh whose
       stored faces are closed triangles (`addCell4_isTet`, and every stored tetrahedron stays one: `addCell4_allTet`).
@@ -51,11 +55,10 @@ import OVM.Tet.CollapseGInv
       in deferred deletion mode the model algorithm `collapseEdge` (rebuild the star of `a` on `b`, deferred delete,
       re-add) yields, as a multiset of canonical oriented quadruples, exactly `absCollapse a b` of the former cells;
       every re-created cell is a tetrahedron again and an even rearrangement of a former cell with `a` renamed to
-      `b`; the returned handle is `b`, live afterwards, and `a` is deleted (`collapse_refines_partial`,
-      OVM/Tet/Collapse{Star,Finish,Refine,Quads}.lean).  `_partial`: the two immediate modes are this operation
-      followed by `collect_garbage` (`collapseEdge_eq`); that garbage collection preserves the quadruples up to
-      the vertex renumbering is not proved here (evaluated by lean/OVM/Tet/Judge.lean on every collapse of the
-      correspondence run through the vertex identity tokens).
+      `b`; the returned handle is `b`, live afterwards, and `a` is deleted (`collapse_refines_deferred`,
+      OVM/Tet/Collapse{Star,Finish,Refine,Quads}.lean).  The two immediate modes are this operation followed by
+      `collect_garbage` (`collapseEdge_eq`), which keeps the quadruples up to the renumbering of the vertices
+      (OVM/Tet/TetGCQuads.lean, TetGCQuadsFast.lean): `collapse_refines` holds in ALL FOUR deletion modes.
 -/
 namespace OVM.Props.C15
 open OVM OVM.Kernel OVM.Tet
@@ -142,6 +145,24 @@ theorem collapse_keeps_invariant (k : Kernel) (h : Nat) (hi : Global.GInv k) (hl
 theorem shape_step_collapse (k : Kernel) (h : Nat) (hi : TInv k) (hl : FaceLoops k) (hb : k.fullBU = true)
     (hlc : k.linkCondition h = true) : TInv (k.stepTetX (.collapse h)).1 :=
   tinv_stepTetX k (.collapse h) hi (tetOpOK_collapse hi.ginv hl hb hlc)
+
+/-- **C15, first sentence, at full strength**: after ANY admissible history of the tet driver vocabulary — construction
+    through the tet API (`add_halfface(a,b,c)`, `add_cell(v0..v3)`, `add_cell(vector)`, topology-checked
+    `add_cell(halffaces)`), every deletion, index swap, `collect_garbage`, mode switch in every deletion mode, `clear`,
+    and `collapse_edge` on edges satisfying the link condition — every stored face has three halfedges, every stored
+    cell four halffaces, and every LIVE cell is a tetrahedron on four distinct vertices (`TetShape`).  `ShapeOKAll`
+    (OVM/Tet/TetFinal.lean, TetStable.lean) are valid arguments plus, for the creating calls, "vertex and edge caches
+    enabled, no face / cell deletion flag pending" (stale definitions of flagged entities are not renamed by the swaps:
+    witness `sampleStale` in TetStable.lean).  Not covered (`False` in `ShapeOKAll`): `set_*`, unchecked
+    `add_face(halfedges)` / `add_cell(halffaces)`, `add_face(vertices)`, `add_halfedge`, `add_halfface(halfedges)`,
+    and the protected `split_edge` / `split_face`. -/
+theorem tetShape_run (ops : List TetOp) (k : Kernel) (hi : TetSInv k) (h : ShapeAdmissibleAll k ops) :
+    TetSInv (runTetX k ops) ∧ ValenceShape (runTetX k ops) ∧ TetShape (runTetX k ops) :=
+  tetShape_run_all ops k hi h
+
+theorem tetShape_reachable (ops : List TetOp) (h : ShapeAdmissibleAll {} ops) :
+    ValenceShape (runTetX {} ops) ∧ TetShape (runTetX {} ops) :=
+  tetShape_reachable_all ops h
 
 /-- … in particular every state reachable from the empty mesh -/
 theorem shape_reachable (ops : List TetOp) (h : AdmissibleAll {} ops) :
@@ -353,13 +374,12 @@ theorem returned_handle_designates (k : Kernel) (a b : Nat) (hd : k.deferred = f
     simplicial complex, the edge is live, `a ≠ b`) -/
 abbrev CollapsePre (k : Kernel) (h : Nat) : Prop := CPre k h
 
-/-- **PARTIAL (deferred deletion mode, fast or not; the two immediate modes are this followed by `collect_garbage`,
-    whose effect on the quadruples — a renumbering of the vertices — is not proved): the model algorithm refines the
-    abstract operation.**  After `collapse_edge(a → b)`:
+/-- **the model algorithm refines the abstract operation, deferred deletion mode** (fast or not; all four modes:
+    `collapse_refines` below).  After `collapse_edge(a → b)`:
     * the canonical oriented vertex quadruples of the live cells are, as a multiset, `absCollapse a b` of the former
       ones — exactly the former cells that did not contain both `a` and `b`, with `a` replaced by `b`, orientation kept;
     * the returned handle is `b`; `b` is not deleted; `a` is deleted. -/
-theorem collapse_refines_partial (k : Kernel) (h : Nat) (P : CollapsePre k h) :
+theorem collapse_refines_deferred (k : Kernel) (h : Nat) (P : CollapsePre k h) :
     ((k.collapseEdge h).1.liveCells.map (fun c => canonQuad ((k.collapseEdge h).1.cellQuad c))).Perm
       ((absCollapse (k.fromV h) (k.toV h) (k.liveCells.map k.cellQuad)).map canonQuad) ∧
     (k.collapseEdge h).2 = k.toV h ∧ (k.collapseEdge h).1.vDeleted (k.toV h) = false ∧
@@ -367,16 +387,31 @@ theorem collapse_refines_partial (k : Kernel) (h : Nat) (P : CollapsePre k h) :
   obtain ⟨_, _, _, _, _, _, _, _, _, _, _, _, h1, h2, h3⟩ := collapse_state P
   exact ⟨collapse_refines P, h3, h1, h2⟩
 
+/-- **C15(d) in ALL FOUR deletion modes**: `collapse_edge(a → b)` on an edge satisfying the link condition (global kernel
+    invariant, all three caches, closed triangular faces — nothing else) yields exactly the former cells that did not
+    contain both `a` and `b`, with `a` replaced by `b`, orientation preserved: the canonical oriented vertex quadruples of
+    the live cells afterwards are, as a multiset, those of `absCollapse a b` of the quadruples before, read through the
+    renumbering `collapseRenum` of the vertex handles by the final garbage collection (identity in deferred mode, the
+    shift `corr1 a` in immediate mode, the exchange of `a` with the last vertex in immediate fast mode); and the
+    returned handle is the renumbered `b` — the handle that then designates `b` (property columns travel the same way:
+    `returned_handle_designates`). -/
+theorem collapse_refines (k : Kernel) (h : Nat) (hi : Global.GInv k) (hl : FaceLoops k) (hb : k.fullBU = true)
+    (hlk : k.linkCondition h = true) :
+    ((k.collapseEdge h).1.liveCells.map (fun c => canonQuad ((k.collapseEdge h).1.cellQuad c))).Perm
+      ((absCollapse (k.fromV h) (k.toV h) (k.liveCells.map k.cellQuad)).map (fun t => canonQuad (t.map (collapseRenum k h)))) ∧
+    (k.collapseEdge h).2 = collapseRenum k h (k.toV h) :=
+  collapse_refines_all hi hl hb hlk
+
 /-- the canonical representative only depends on the orientation class (so `Perm` of canonical quadruples is
     "the same oriented tetrahedra"), and different classes have different representatives -/
 theorem canonQuad_classes (t x : List Nat) (ht : t.length = 4) (hx : x.length = 4) :
     canonQuad x = canonQuad t ↔ x ∈ evenPerms t := canonQuad_eq_iff t x ht hx
 
-/-- the state behind `collapse_refines_partial`, cell by cell: the re-created cells are appended to the cell array in
+/-- the state behind `collapse_refines_deferred`, cell by cell: the re-created cells are appended to the cell array in
     the order of the star; each is a tetrahedron again whose oriented quadruple is an EVEN rearrangement of the
     quadruple of the cell it replaces with `a` renamed to `b`; an old cell is live afterwards iff it was live and
     does not contain `a`, and then its definition is untouched -/
-theorem collapse_cellwise_partial (k : Kernel) (h : Nat) (P : CollapsePre k h) :
+theorem collapse_cellwise_deferred (k : Kernel) (h : Nat) (P : CollapsePre k h) :
     ∃ rem : List (Nat × List Nat), rem.map (·.1) = rebuilt k h ∧
       (k.collapseEdge h).1.cells = k.cells ++ rem.map (·.2) ∧
       (∀ c, c ∈ rebuilt k h ↔ (k.liveC c = true ∧ k.fromV h ∈ k.cellVertSet c ∧ k.toV h ∉ k.cellVertSet c)) ∧
@@ -472,7 +507,9 @@ example : runTetX {} fanOps = threeTets ∧ rebuilt threeTets 0 = [2] ∧
     (absCollapse 0 1 (threeTets.liveCells.map threeTets.cellQuad)).map canonQuad = [[1, 2, 5, 3]] ∧
     (threeTets.collapseEdge 0).1.liveCells.map (threeTets.collapseEdge 0).1.cellQuad = [[1, 3, 2, 5]] ∧
     threeTets.cellQuad 2 = [0, 3, 2, 5] := by decide +kernel
-example := collapse_refines_partial _ 0 fan_pre
+example := collapse_refines_deferred _ 0 fan_pre
+-- an admissible history in IMMEDIATE NON-FAST mode with `add_cell(vector)`, a collapse, a swap and a shifting deletion
+example : TetShape (runTetX {} sampleAll) := (tetShape_reachable sampleAll sampleAll_admissible).2
 -- `add_cell(v0,v1,v2,v3)`: the hypotheses hold on the two glued tets, a third tet on the face (0,2,3) is `IsTet`
 example : FaceLoops twoTets.addVertex.1 ∧ AllTet twoTets.addVertex.1 ∧
     (twoTets.addVertex.1.tetAddCell4 0 3 2 5 true).2 = some 2 ∧ IsTet threeTets 2 := by decide +kernel
